@@ -315,19 +315,24 @@ type typeGuesser struct {
 }
 
 func (g *typeGuesser) Guess() (SchemaType, error) {
-	m := map[SchemaType]func() bool{
-		SchemaTypeString:  g.isString,
-		SchemaTypeInteger: g.isInteger,
-		SchemaTypeFloat:   g.isFloat,
-		SchemaTypeBoolean: g.isBoolean,
-		SchemaTypeObject:  g.isObject,
-		SchemaTypeArray:   g.isArray,
-		SchemaTypeNull:    g.isNull,
+	// The order matters (and a map has none): a quoted string containing a dot,
+	// like "a.b", also satisfies isFloat. Same order as json.GuessData.JsonType.
+	m := []struct {
+		t  SchemaType
+		fn func() bool
+	}{
+		{SchemaTypeObject, g.isObject},
+		{SchemaTypeArray, g.isArray},
+		{SchemaTypeString, g.isString},
+		{SchemaTypeBoolean, g.isBoolean},
+		{SchemaTypeNull, g.isNull},
+		{SchemaTypeInteger, g.isInteger},
+		{SchemaTypeFloat, g.isFloat},
 	}
 
-	for t, fn := range m {
-		if fn() {
-			return t, nil
+	for _, c := range m {
+		if c.fn() {
+			return c.t, nil
 		}
 	}
 	return SchemaTypeUndefined, errs.ErrUnableToDetermineTheTypeOfJsonValue.F()
